@@ -62,8 +62,14 @@ def gen_program(rng):
     L = ["\tcpu %s" % cpu, "\torg %d" % rng.choice([0, 256, 32768])]
     L += ["m1\tmacro a,b", "\t%s a,b" % db, "\tendm", "v1\tequ %d" % rng.randint(1, 100), "v2\tset v1+100"]
     for i in range(rng.randint(3, 25)):
-        k = rng.below(9)
-        if k == 7:
+        k = rng.below(10)
+        if k == 9:
+            # statements that steer the reports from inside the source: they must not reach the code either
+            L.append(rng.choice(["\tlisting off", "\tlisting on", "\tlisting noskipped", "\tlisting purecode", "\tmacexp off", "\tmacexp on",
+                                 "\tmacexp_dft noif,nomacro", "\tpage 10", "\tnewpage", "\ttitle \"t%d\"" % i, "\tprtinit \"\\e[1m\"",
+                                 "\tprtexit \"\\e[0m\"", "\tnewpage 2", "\tpage 0", "\tlisting on\n\tdb liston", "\tsave\n\tlisting off\n\trestore"]
+                                ).replace("\tdb ", "\t%s " % db))
+        elif k == 7:
             # conditional assembly on the assembler's own bookkeeping (usage / definition flags, which the cross
             # reference, usage and symbol reports also read), placed before or after the first reference
             sym = rng.choice(["v1", "v2", "l%d" % rng.randint(0, 30), "u%d" % i])
